@@ -923,7 +923,10 @@ def _map_texts(ev, f_text, f_attr=None, only_cdata=False, f_other=None):
         elif f_other is not None and t in ('CM', 'DIS'):
             out.append((t, f_other(e[1]) if e[1] is not None else None))
         elif f_other is not None and t == 'PI':
-            out.append((t, e[1], f_other(e[2]) if e[2] is not None else None))
+            v = f_other(e[2]) if e[2] is not None else None
+            if v is not None and v != e[2]:
+                v = v.lstrip(' \t\n\r')          # white space after the target is not part of the data
+            out.append((t, e[1], v))
         else:
             out.append(e)
     return out
@@ -1059,7 +1062,7 @@ class Judge:
                 return True
             # a refusal with no reason in the tree
             why = 'other'
-            nt = o.de[0][1] if o.de else '~'
+            nt = next((d[1] for d in o.de if d[0] != 'W'), '~')
             if nt == '4' and eff_enc in ICU_ENCODINGS and notes.get('unrep-cdata-split-supplementary'):
                 why = 'icu-unrep-supplementary-split'
             elif ver == '1.1' and ((nt == '3' and notes.get('xml11-restricted-in-text')) or (nt == '2' and notes.get('xml11-restricted-in-attr'))):
